@@ -489,9 +489,9 @@ class CircuitTemplate(AbstractBaseTemplate):
         outputs_final = {}
         for key, out_info in output_map.items():
             if type(out_info) is dict:
-                outputs_final[key] = {key2: np.squeeze(outputs.pop(key2)[:, idx]) for key2, idx in out_info.items()}
+                outputs_final[key] = {key2: np.squeeze(outputs[key2][:, idx]) for key2, idx in out_info.items()}
             else:
-                raw = outputs.pop(key)[:, out_info]
+                raw = outputs[key][:, out_info]
                 if hasattr(out_info, '__len__') and len(out_info) > 1:
                     # population output: keep (n_time, n_units) — do not squeeze unit axis
                     outputs_final[key] = raw
